@@ -16,6 +16,7 @@ package main
 
 import (
 	"encoding/json"
+	"flag"
 	"fmt"
 	"os"
 	"path/filepath"
@@ -51,12 +52,18 @@ func (rn *runner) runOpsCase(d *docCtx, c *opsCase, verbose bool) *opsOutcome {
 			fmt.Printf("%3d %-28s ref=%+v idr=%+v\n", i, c.Ops[i].coq(), out.xres[i], out.ires[i])
 		}
 	}
+	if out.outOfScope {
+		fmt.Println("sequence leaves the scope of the reference (MoveToRoot on an attribute position, Q2): not evaluated")
+		return out
+	}
 	if out.failAt >= 0 {
 		fc := *c
-		fc.Ops = c.Ops[:out.failAt+1]
+		fc.Ops = shrinkOps(d, k, c.Ops[:out.failAt+1], out.failWhat)
+		o2 := runOps(d, k, fc.Ops)
+		last := len(fc.Ops) - 1
 		rn.sum.Fail(out.failWhat, &fc, map[string]interface{}{
-			"index": out.failAt, "op": c.Ops[out.failAt],
-			"reference_xmlquery": out.xres[out.failAt], "idr": out.ires[out.failAt]})
+			"index": last, "op": fc.Ops[last], "shrunk_from": out.failAt + 1,
+			"reference_xmlquery": o2.xres[last], "idr": o2.ires[last]})
 	}
 	return out
 }
@@ -158,6 +165,7 @@ func referenceQuirks() map[string]string {
 }
 
 func main() {
+	only := flag.String("only", "", "run only part (a) \"ops\" or part (b) \"expr\" (experiments; bin/check runs both)")
 	o := vh.ParseOpts()
 	sum := vh.NewSummary("C11", o, rule)
 	cw := vh.NewCaseWriter(o, "c11", "Base.Tree Model.Nav", "ncase", "check_case")
@@ -186,7 +194,7 @@ func main() {
 
 	r := vh.NewRng(o.Seed)
 	ndocs := o.Count(260, 6000)
-	const seqPerDoc, coqRunsPerDoc, exprPerDoc = 10, 3, 14
+	const seqPerDoc, coqRunsPerDoc, exprPerDoc = 10, 3, 22
 	exprFeat := map[string]bool{}
 	for di := 0; di < ndocs; di++ {
 		text, groot, feat := genDoc(r)
@@ -215,7 +223,7 @@ func main() {
 
 		// ---- (a) operation level ----
 		var runs []string
-		for s := 0; s < seqPerDoc; s++ {
+		for s := 0; s < seqPerDoc && *only != "expr"; s++ {
 			k := 0
 			if r.Chance(0.6) {
 				k = r.Pick(len(d.xnodes))
@@ -251,36 +259,77 @@ func main() {
 
 		// ---- (b) end to end ----
 		g := newExprGen(r, d)
-		for e := 0; e < exprPerDoc; e++ {
+		for e := 0; e < exprPerDoc && *only != "ops"; e++ {
 			scalar := r.Chance(0.2)
-			var ex string
-			if scalar {
-				ex = g.scalarExpr()
-			} else {
-				ex = g.nodeSetExpr()
+			k, kind := 0, kRoot
+			if len(d.xnodes) > 1 && r.Chance(0.5) {
+				k = 1 + r.Pick(len(d.xnodes)-1)
+				kind = kElem
+				if d.xnodes[k].Type == xmlquery.TextNode {
+					kind = kText
+				}
 			}
-			starts := []int{0}
-			if len(d.xnodes) > 1 {
-				starts = append(starts, 1+r.Pick(len(d.xnodes)-1))
+			var ex string
+			starts := []int{k}
+			if r.Chance(0.6) {
+				// grown along existing nodes from this start (evaluated from this start only)
+				var mayRoot bool
+				ex, mayRoot = g.guidedPath(d, d.xnodes[k])
+				sum.Hist("expr:document-guided")
+				if scalar {
+					switch c := r.Pick(4); {
+					case c == 0:
+						ex = "count(" + ex + ")"
+					case c == 1:
+						ex = "boolean(" + ex + ")"
+					case c == 2 && !mayRoot:
+						ex = "string(" + ex + ")"
+					case c == 3 && !mayRoot && !strings.Contains(ex, "["):
+						ex = "concat(" + ex + ", '|', name(" + ex + "))"
+					default:
+						scalar = false
+					}
+				}
+			} else {
+				if scalar {
+					ex = g.scalarExpr(kind)
+				} else {
+					ex = g.nodeSetExpr(kind)
+				}
+				if r.Chance(0.3) { // the same expression from a second, unrelated start
+					starts = append(starts, r.Pick(len(d.xnodes)))
+				}
 			}
 			for _, k := range starts {
 				c := &exprCase{Kind: "expr", Doc: text, Expr: ex, Start: d.paths[k], Scalar: scalar}
 				out := rn.runExprCase(d, c, false)
 				sum.Count("expr|"+text+"|"+ex+"|"+pathLabel(c.Start), hasAttr && exprTouches(ex))
 				sum.Hist("expr:evaluations")
+				if out.Q1 > 0 {
+					sum.Hist("expr:reference-repair-active(Q1 Value of document node)")
+				}
+				if out.Q2 > 0 {
+					sum.Hist("expr:reference-repair-active(Q2 MoveToRoot on attribute)")
+				}
 				switch {
 				case out.RefErr != "":
 					sum.Hist("expr:engine-rejects-or-panics-on-both")
+					if os.Getenv("C11_DEBUG") != "" {
+						fmt.Println("REJECT", ex, "|", out.RefErr, "|", out.IdrErr)
+					}
 				case scalar:
 					sum.Hist("expr:scalar")
 				case out.n == 0:
 					sum.Hist("expr:selects-0")
+					if os.Getenv("C11_DEBUG") != "" {
+						fmt.Println("ZERO", pathLabel(c.Start), ex)
+					}
 				case out.n == 1:
 					sum.Hist("expr:selects-1")
 				default:
 					sum.Hist("expr:selects-many")
 				}
-				if di == 2 && e < 2 && k == 0 {
+				if di >= 2 && len(sum.Samples) < 4 && out.n > 1 {
 					sum.Sample(map[string]interface{}{"kind": "expr", "doc": text, "expr": ex, "start": pathLabel(c.Start), "idr": out.IdrHits, "idr_value": out.IdrVal})
 				}
 			}
